@@ -162,3 +162,13 @@ def slope(r):
             r["drop"][c] += 1
             return r
     return None
+
+
+def seriesstats(r):
+    if r.get("kind") == "acf" and _bump(r.get("cov0")):
+        r["cov0"] = _bump(r["cov0"])
+        return r
+    if r.get("kind") == "goue" and _bump(r.get("goue")):
+        r["goue"] = _bump(r["goue"])
+        return r
+    return None
